@@ -18,7 +18,7 @@ pub struct FixedProg {
 /// Every program defines FNA (succeeds), FNZ (fails inside its body, parameter named like a
 /// variable the program reads later) on its first line and sets Y to 1.
 pub fn fixed_programs() -> Vec<FixedProg> {
-    let head = "1 DEF FNA(Q)=Q+1: DEF FNZ(Y)=Y/0: Y=1: X=2: A$=\"s\"";
+    let head = "1 DEF FNA(Q)=Q+1: DEF FNZ(Y)=Y/0: DEF FNW(X)=FNZ(X)+1: Y=1: X=2: A$=\"s\": DEF FNV(Y)=";
     vec![
         FixedProg {
             name: "nested FOR",
@@ -66,6 +66,11 @@ pub fn fixed_programs() -> Vec<FixedProg> {
             replies: vec![],
         },
         FixedProg {
+            name: "STOP under THEN with ELSE, nested IF with two ELSEs",
+            lines: vec![head, "20 IF Y THEN STOP ELSE PRINT \"no\"", "30 PRINT \"a\";Y;: IF X=9 THEN IF 1 THEN PRINT 1 ELSE PRINT 2 ELSE PRINT 3", "40 STOP: PRINT \"b\";X;Y"],
+            replies: vec![],
+        },
+        FixedProg {
             name: "INPUT under THEN with ELSE, in a subroutine",
             lines: vec![head, "20 GOSUB 100: PRINT \"r\";W;Y: END", "100 IF Y THEN INPUT W ELSE PRINT \"no\"", "110 RETURN"],
             replies: vec!["8"],
@@ -73,12 +78,15 @@ pub fn fixed_programs() -> Vec<FixedProg> {
     ]
 }
 
-pub const INSPECTIONS: [&str; 9] = [
+pub const INSPECTIONS: [&str; 12] = [
     "",
     "PRINT X;I;A$",
     "PRINT 1/0",
     "PRINT FNA(1)",
     "PRINT FNZ(5)",
+    "PRINT FNW(5)",
+    "PRINT FNV(5)",
+    "PRINT FNA(\"s\")",
     "PRINT \"x\" + 1",
     "LIST",
     "REM",
@@ -137,6 +145,15 @@ pub fn run_with_breaks(p: &FixedProg, breaks: &[usize], inspection: &str) -> (Ou
         }
         let st = s.state();
         if st == InterpreterState::Idle {
+            // A STOP in the program: the host types CONT (bounded), anything else is the end.
+            if s.it.verif_snapshot().breakpoint.is_some() && boundary < 400 {
+                transcript.push("Stopped".into());
+                boundary += 1;
+                let e = Ev::Line("CONT".into());
+                last = s.apply(&e);
+                hist.push(e);
+                continue;
+            }
             end = "ended".to_string();
             break;
         }
@@ -151,7 +168,7 @@ pub fn run_with_breaks(p: &FixedProg, breaks: &[usize], inspection: &str) -> (Ou
             hist.push(Ev::Break);
             let mut insp = inspection;
             if insp.contains("FN") {
-                let name = if insp.contains("FNA") { "FNA" } else { "FNZ" };
+                let name = &insp[insp.find("FN").unwrap()..insp.find("FN").unwrap() + 3];
                 if !s.it.verif_snapshot().functions.iter().any(|f| f.name == name) {
                     insp = ""; // calling an undefined function would dimension an array
                 }
@@ -224,6 +241,9 @@ fn stop_clause(p: &FixedProg) -> (u64, Vec<Violation>) {
     let assignments = ["X=7", "A$=\"Q\"", "I=I+1", "A(1)=9", "Y=4"];
     let mut out = vec![];
     let mut runs = 0u64;
+    if p.lines.iter().any(|l| l.contains("STOP")) {
+        return (0, out); // the clause is about one STOP; programs with their own STOPs are skipped
+    }
     // positions: a new line between every two consecutive lines
     let nums: Vec<u64> = p.lines.iter().map(|l| l.split(' ').next().unwrap().parse().unwrap()).collect();
     for &n in &nums {
